@@ -9,7 +9,7 @@ static const std::vector<std::string> kSchemes = {"s", "S", "http", "a+b.c-", "F
 static const std::vector<std::string> kUser = {"", "u", "u:p", "%41", "%7e", "U%2fx", ":", "a%3Ab"};
 static const std::vector<std::string> kHosts = {"", "h", "H.%61", "example.com", "1.2.3.4", "256.1.1.1", "01.2.3.4", "[::1]", "[1:2::ffff:1.2.3.4]",
     "[v1.A:b]", "[vF.x]", "[2001:DB8::7]", "[::]", "[1:2:3:4:5:6:7:8]", "%41%2e", "A%7Eb", "1.2.3.%34", "h-1", "1.2.3", "[::ffff:10.0.0.1]", "x%C3%A9"};
-static const std::vector<std::string> kPorts = {"", "80", "0", "65536", "8080"};
+static const std::vector<std::string> kPorts = {"", "80", "0", "65536", "8080", "0080", "00", "007", "1000000000", "5294967296", "80", "443"};
 static const std::vector<std::string> kSegs = {"", ".", "..", "a", "b", "c", "a:b", ":", "%2e", "%2E%2e", "%41", "%c3%a9", ";x", "a.b", "...", "%2F", "A",
     "%7e", "x%3a", "b:c", "..a", "%2e%2e", "d", "", ".", ".."};
 static const std::vector<std::string> kQF = {"", "q", "a=b&c", "%7E%2f", "?/", "x%41", "k=v%20w", "%3d", ":@/?"};
@@ -157,7 +157,9 @@ UriParts edit_one(Rng& r, const UriParts& p0, std::string* what) {
         case 3: if (p.has_auth && !p.host.empty() && p.host[0] != '[') { p.host = tweak(r, p.host, "0123456789abh"); *what = "host"; return p; }
                 if (p.has_auth && p.host.size() > 3 && p.host[0] == '[' && (p.host[1] == 'v' || p.host[1] == 'V') && p.host.find(':') == std::string::npos) { p.host = p.host.substr(1, p.host.size() - 2); *what = "host-kind-same-text"; return p; }
                 break;
-        case 4: if (p.has_auth) { if (p.has_port && r.chance(300)) p.has_port = false; else { p.port = p.has_port ? tweak(r, p.port, "0123456789") : (r.chance(500) ? "" : "8"); p.has_port = true; } *what = "port"; return p; } break;
+        case 4: if (p.has_auth && p.has_port && p.port == "1000000000" && r.chance(600)) { p.port = "5294967296"; *what = "port-plus-2^32"; return p; }
+                if (p.has_auth && p.has_port && p.port == "80" && r.chance(200)) { p.port = r.chance(500) ? "080" : "0080"; *what = "port-leading-zero"; return p; }
+                if (p.has_auth) { if (p.has_port && r.chance(300)) p.has_port = false; else { p.port = p.has_port ? tweak(r, p.port, "0123456789") : (r.chance(500) ? "" : "8"); p.has_port = true; } *what = "port"; return p; } break;
         case 5: if (!p.segs.empty()) { size_t i = r.below((uint32_t)p.segs.size()); p.segs[i] = tweak(r, p.segs[i], "abcdAB.%"); *what = "segment"; return p; } break;
         case 6: p.segs.push_back(r.chance(500) ? "" : "z"); *what = "segment-added"; return p;
         case 7: if (!p.segs.empty()) { p.segs.pop_back(); *what = "segment-removed"; return p; } break;
@@ -311,6 +313,7 @@ std::vector<Op> history(Rng& r, const HistCfg& c) {
             if (s < 0) continue;
             o.kind = OP_NORMALIZE; o.a = s; o.entry = c.entries ? r.range(0, 2) : 2;
             o.opt = r.chance(450) ? 63 : (r.chance(100) ? 0 : r.range(1, 63));
+            if (r.chance(40)) o.opt = r.pick(std::vector<int>{127, 255, 0xFFFF, 64 | 63, 0x7FFFFFFF});   // "all bits": callers that pass more than today's six
         } else if ((x -= c.w_makeowner) < 0) {
             int s = pick_valid(-1, -1, false);
             if (s < 0) continue;
@@ -349,6 +352,7 @@ Plan base_plan(const char* prop, unsigned long long vseed, unsigned long long in
     p.junk = r.next() | 1;
     p.reuse = r.chance(512) ? REUSE_LIFO : REUSE_NEVER;
     p.redzone = r.chance(500) ? 32 : 64;
+    { Rng r2(p.run_seed ^ 0x10ca1e); p.locale = r2.chance(200) ? 1 : 0; }   // own stream: older plans keep their other choices
     p.mgrs.push_back(MK_LIBC); p.mgr_mask.push_back(0);
     return p;
 }
